@@ -70,7 +70,7 @@ PROPS['C18'] = dict(
          'nesting levels or a substitution bracket, or any mutated text; distinct = by hash of the case line',
     trusted_base=['modelled, not verified: char::is_whitespace (model: the Unicode White_Space list written out), str::trim/split, payload FromStr impls'],
     assumptions=COMMON_ASSUME + ['texts are parsed in a fresh thread (empty slot table) on both sides'],
-    pending_theorems=['round-trip for RecExpr and MultiPattern as separate theorems (RecExpr::parse is Pattern::parse followed by the trivial pattern_to_re; MultiPattern is judged per run)'],
+    pending_theorems=[],
 )
 
 PROPS['C10'] = dict(
